@@ -161,3 +161,23 @@ Fixpoint collect_left (c : cfg) (items : list pyval) (targets : list titem) (exc
               | None => CRStuck
               end
   end.
+(* the same loop with targets.append(target): the objects are collected in schedule order *)
+Fixpoint collect_right (c : cfg) (items : list pyval) (targets : list titem) (exc : string) : crun :=
+  match items with
+  | [] => CRCompose targets
+  | v :: r => match parse_item v with
+              | Some it => if item_present c it then collect_right c r (targets ++ [it]) exc else CRRaise exc
+              | None => CRStuck
+              end
+  end.
+(* compose_qoperations( *reversed(targets) ) *)
+Definition cr_rev (r : crun) : crun := match r with CRCompose l => CRCompose (rev l) | x => x end.
+
+(* ================================================================== part 4: the element lists handed to __init__ / the setters
+   (Experiment._validate_type).  An element is None or an object of some class (quara objects are truthy);
+   isinstance(x, C) for the four leaf classes State / Povm / Gate / MProcess is class equality. *)
+Inductive elem := ENone | EObj (cls : string).
+Definition elem_truthy (x : elem) : bool := match x with ENone => false | EObj _ => true end.
+Definition elem_isinstance (x : elem) (cls : string) : bool := match x with ENone => false | EObj c => String.eqb c cls end.
+(* what the schedule validators see of such a list: object / None placeholder *)
+Definition mask_of (l : list elem) : list bool := map elem_truthy l.
